@@ -37,8 +37,8 @@ fn op_strategy(hub: bool) -> impl Strategy<Value = Op> {
         10 => (ep, ep2, 0u8..2, any::<bool>()).prop_map(|(a, b, t, d)| Op::CreateEdge(a, b, t, d)),
         3 => any::<u16>().prop_map(Op::DeleteEdge),
         2 => any::<u16>().prop_map(Op::DeleteNode),
-        1 => (any::<u16>(), 0i64..5).prop_map(|(n, v)| Op::UpdateNode(n, v)),
-        1 => (any::<u16>(), 0i64..5).prop_map(|(e, v)| Op::UpdateEdge(e, v)),
+        1 => (any::<u16>(), 0i64..10).prop_map(|(n, v)| Op::UpdateNode(n, v)),
+        2 => (any::<u16>(), 0i64..10).prop_map(|(e, v)| Op::UpdateEdge(e, v)),
     ]
 }
 
@@ -263,6 +263,25 @@ fn props(v: i64) -> HashMap<String, PropertyValue> {
     p
 }
 
+/// Values 5..10 of an update operation name one of the record's structural fields instead of an
+/// ordinary property (the update may be refused or ignored, but must not change the structure).
+const STRUCTURAL: [&str; 5] = ["_to", "_from", "_directed", "_edge_type", "_id"];
+
+fn update_props(v: i64, some_node: u64) -> (HashMap<String, PropertyValue>, bool) {
+    if v < 5 {
+        return (props(v), false);
+    }
+    let name = STRUCTURAL[(v as usize - 5) % STRUCTURAL.len()];
+    let value = match name {
+        "_directed" => PropertyValue::Bool(v % 2 == 0),
+        "_edge_type" => PropertyValue::String("x".to_string()),
+        _ => PropertyValue::Int(some_node as i64),
+    };
+    let mut p = HashMap::new();
+    p.insert(name.to_string(), value);
+    (p, true)
+}
+
 fn seq_check(c: &SeqCase, ctx: &mut CaseCtx) -> Result<(), Fail> {
     let g = GraphEngine::new();
     let mut m = Model::default();
@@ -336,8 +355,12 @@ fn seq_check(c: &SeqCase, ctx: &mut CaseCtx) -> Result<(), Fail> {
             },
             Op::UpdateNode(n, v) => {
                 let id = pool[pick(*n, pool.len())];
-                let r = g.update_node(id, None, props(*v));
-                if r.is_ok() != m.nodes.contains(&id) {
+                let (p, structural) = update_props(*v, pool[0]);
+                let r = g.update_node(id, None, p);
+                if structural {
+                    ctx.label("update with a structural field name");
+                    ctx.set_nontrivial();
+                } else if r.is_ok() != m.nodes.contains(&id) {
                     ctx.fail("update_node-result", format!("{when}: update_node({id}) ok={} but node exists={}", r.is_ok(), m.nodes.contains(&id)))?;
                 }
             },
@@ -346,8 +369,12 @@ fn seq_check(c: &SeqCase, ctx: &mut CaseCtx) -> Result<(), Fail> {
                     continue;
                 }
                 let id = epool[pick(*e, epool.len())];
-                let r = g.update_edge(id, props(*v));
-                if r.is_ok() != m.edges.contains_key(&id) {
+                let (p, structural) = update_props(*v, pool[pool.len() - 1]);
+                let r = g.update_edge(id, p);
+                if structural {
+                    ctx.label("update with a structural field name");
+                    ctx.set_nontrivial();
+                } else if r.is_ok() != m.edges.contains_key(&id) {
                     ctx.fail("update_edge-result", format!("{when}: update_edge({id}) ok={} but edge exists={}", r.is_ok(), m.edges.contains_key(&id)))?;
                 }
             },
